@@ -7,6 +7,8 @@
   clocks; listeners; modulators).
     mgr <sub> <send> <clock> <mod> <lis> <snd> | add sub <sndcap> | add send|clock|mod|lis | play <len>
     tplay <t> <len> | drop sub|send|clock|mod|lis <i> | cb <frames>
+    add spat <l> <sndcap> (a spatial sub-track: the same storage as the plain ones) | playerr | tplayerr <t>
+    (a play whose `into_sound()` fails: `Store.play _ none`)
 -/
 import KiraModel.Exec.Proto
 import KiraModel.Exec.Sched
@@ -118,6 +120,11 @@ def lifeCb (st : LifeState) (frames : Nat) : Except SFault (LifeState × String)
   let t := if tcounts.isEmpty then "-" else String.intercalate "." tcounts
   pure (st', s!"n sub={sub.store.len} send={send.store.len} clock={clock.store.len} mod={md.store.len} snd={snd.store.len} t={t} clk={resolves clock} md={resolves md}")
 
+def showPlay : Store.PlayResult → String
+  | .intoSoundError => "err"
+  | .limit => "limit"
+  | .ok _ => "ok"
+
 def lifeStepE (st : LifeState) (tok : List String) : Option (Except SFault (LifeState × String)) :=
   match tok with
   | ["mgr", a, b, c, d, e, f] => do
@@ -130,6 +137,18 @@ def lifeStepE (st : LifeState) (tok : List String) : Option (Except SFault (Life
         | .ok (k, ok) =>
           let st' := { st with sub := k, tsounds := if ok then st.tsounds ++ [(st.sub.nextId, Store.new sc)] else st.tsounds }
           .ok (st', s!"{if ok then "ok" else "limit"} n={k.store.len}"))
+  | ["add", "spat", l, sc] => do
+      -- a spatial sub-track lives in the same storage as the plain ones; it needs the id of a listener
+      -- that was created (the l-th `add lis` succeeded)
+      let l ← nat? l; let sc ← nat? sc
+      match st.lis.handles[l]? with
+      | some (some _) =>
+        pure (match st.sub.add ⟨st.sub.nextId, 0, 0⟩ with
+          | .error e => .error e
+          | .ok (k, ok) =>
+            let st' := { st with sub := k, tsounds := if ok then st.tsounds ++ [(st.sub.nextId, Store.new sc)] else st.tsounds }
+            .ok (st', s!"{if ok then "ok" else "limit"} n={k.store.len}"))
+      | _ => pure (.ok (st, "skip"))
   | ["add", kind] =>
       let go (k : LKind) (set : LKind → LifeState) (showN : Bool) : Except SFault (LifeState × String) :=
         match k.add ⟨k.nextId, 0, 0⟩ with
@@ -147,6 +166,25 @@ def lifeStepE (st : LifeState) (tok : List String) : Option (Except SFault (Life
       pure (match st.snd.add ⟨st.nextSound, len, 0⟩ with
         | .error e => .error e
         | .ok (k, ok) => .ok ({ st with snd := k, nextSound := st.nextSound + 1 }, s!"{if ok then "ok" else "limit"} n={k.store.len}"))
+  | ["playerr"] =>
+      -- `into_sound()` fails: `play` returns before the main track's sound storage is touched
+      some (match st.snd.store.play none with
+        | .error e => .error e
+        | .ok (r, s') => .ok ({ st with snd := { st.snd with store := s' } }, s!"{showPlay r} n={s'.len}"))
+  | ["tplayerr", t] => do
+      let t ← nat? t
+      match st.sub.handles[t]? with
+      | some (some h) =>
+        if h.dropped then pure (.ok (st, "skip")) else
+        match st.tsounds.lookup h.id with
+        | none => pure (.ok (st, "skip"))
+        | some s =>
+          pure (match s.play none with
+            | .error e => .error e
+            | .ok (r, s') =>
+              let ts := st.tsounds.map (fun p => if p.1 == h.id then (p.1, s') else p)
+              .ok ({ st with tsounds := ts }, s!"{showPlay r} n={s'.len}"))
+      | _ => pure (.ok (st, "skip"))
   | ["tplay", t, len] => do
       let t ← nat? t; let len ← nat? len
       match st.sub.handles[t]? with
